@@ -93,8 +93,11 @@ class ServiceAccessPoint(object):
             except ValueError:
                 pass
             if len(self.sock_list) == 0:
-                # completely remove this sap
+                # completely remove this sap and the service names bound to it
                 self.llc.sap[self.addr] = None
+                for name, addr in list(self.llc.snl.items()):
+                    if addr == self.addr:
+                        del self.llc.snl[name]
 
     def send(self, send_pdu):
         self.send_list.append(send_pdu)
